@@ -119,6 +119,7 @@ def alias_pair_free(prog, rule, pair=("key", "key_orig")):
                         ini = strip(v2.get("init")) if v2.get("init") is not None else None
                         if isinstance(ini, dict) and ini.get("k") == "call" and ini.get("callee") in ("malloc", "calloc", "strdup", "cif_u_strdup", "cif_u_strndup"):
                             fresh_locals.add(v2["name"])
+                stale = []
                 for (b2, i2, r2, a) in fn.eval_sites("asg"):
                     lp = path(strip(a.get("lhs"))) or ""
                     if lp in ("%s->%s" % (base, fld), "%s.%s" % (base, fld)):
@@ -127,9 +128,9 @@ def alias_pair_free(prog, rule, pair=("key", "key_orig")):
                                 or path(rr) in fresh_locals:
                             fresh.append((b2.id, i2))
                         else:
-                            fresh = None
-                            break
-                if fresh and cfgq.must_precede(fn, (bid, idx), fresh):
+                            stale.append((b2.id, i2))
+                # on every path to the free the field's latest store is a fresh allocation (a store of something else kills that)
+                if fresh and cfgq.MustFact(fn, gen_sites=fresh, kill_sites=stale, entry_value=False).at(bid, idx):
                     rule.ok(key, "the field holds an allocation made earlier in this function")
                     continue
                 rule.violation(fn.file, fn.name, c.get("l"), "alias-free:%s:%s->%s" % (fn.name, base, fld),
@@ -1047,4 +1048,238 @@ def out_param_not_dangling(prog, rule):
                                "%s(*%s) at L%s releases the object the caller's pointer refers to, and on some path the function "
                                "returns without storing into *%s again: the caller is left with a dangling pointer it will "
                                "release or use" % (g, out, c.get("l"), out))
+    return n
+
+
+# ------------------------------------------------------------------------------------------------ declarations vs definitions
+def declaration_parameter_agreement(prog, rule, units=None):
+    """Every declaration of a function names its parameters like the definition does, position by position.  Two
+    same-typed parameters whose names are exchanged between prototype and definition make every caller that follows the
+    prototype pass its arguments crosswise.  Returns the number of (declaration, definition) pairs compared."""
+    n = 0
+    for name, ds in sorted(prog.decls.items()):
+        defs = [d for d in ds if d.get("def")]
+        if not defs:
+            continue
+        dfn = defs[0]
+        if units and dfn.get("unit") not in units:
+            continue
+        for d in ds:
+            if d is dfn or d.get("def"):
+                continue
+            pa, pb = d.get("params", []), dfn.get("params", [])
+            if len(pa) != len(pb) or not pa:
+                continue
+            n += 1
+            names_a = [p.get("name") or "" for p in pa]
+            names_b = [p.get("name") or "" for p in pb]
+            key = "%s@%s:%s" % (name, d.get("file"), d.get("line"))
+            swapped = [(i, j) for i in range(len(pa)) for j in range(len(pa)) if i < j
+                       and names_a[i] and names_a[j] and names_a[i] == names_b[j] and names_a[j] == names_b[i]
+                       and names_a[i] != names_a[j]]
+            if swapped:
+                i, j = swapped[0]
+                rule.violation(d.get("file"), name, dfn.get("line"), "parameter-names-exchanged:%s" % name,
+                               "%s is declared (%s:%s) with parameters %d and %d named `%s`, `%s`, but defined (%s:%s) with `%s`, `%s`: "
+                               "callers written against the declaration pass the two %s arguments crosswise"
+                               % (name, d.get("file"), d.get("line"), i + 1, j + 1, names_a[i], names_a[j], dfn.get("file"),
+                                  dfn.get("line"), names_b[i], names_b[j], (pa[i].get("t") or "").strip()))
+            else:
+                rule.ok(key, "parameter names agree with the definition (or differ without being exchanged)")
+    return n
+
+
+# ------------------------------------------------------------------------------------------------ clean helpers reset pointers
+def clean_helpers_reset(prog, rule):
+    """`*_clean` functions release what an object owns but leave the object itself alive (callers re-use or re-clean it): a
+    pointer field they free must be reset (`CLEAN_PTR`, or an assignment after the free) on every path to the exit, unless
+    the object itself is freed as well.  Returns the number of frees judged."""
+    n = 0
+    for fn in prog.all_functions():
+        if not re.search(r"_clean$", fn.name) or not fn.params:
+            continue
+        p0 = fn.params[0]["name"]
+        frees_self = [(b.id, i) for (b, i, r, c) in fn.calls_to("free") if c.get("args") and path(strip(c["args"][0])) == p0]
+        for (b, i, r, c) in fn.calls_to("free"):
+            ap = path(strip(c["args"][0])) if c.get("args") else None
+            if not ap or not ap.startswith(p0 + "->") or "[" in ap:
+                continue
+            if any(m.startswith("HASH_") or m.startswith("uthash") for m in (c.get("ms") or [])):
+                continue        # uthash's own bookkeeping (it resets the head when the last element goes)
+            n += 1
+            resets = [(b2.id, i2) for (b2, i2, r2, a) in fn.eval_sites("asg") if path(strip(a.get("lhs"))) == ap and a.get("op") == "="]
+            key = "%s:free(%s)" % (fn.name, ap)
+            if cfgq.must_follow(fn, (b.id, i), resets + frees_self):
+                rule.ok(key, "reset (or the object is freed) on every path after the free")
+            else:
+                rule.violation(fn.file, fn.name, c.get("l"), "clean-leaves-dangling:%s:%s" % (fn.name, ap),
+                               "%s frees %s but does not reset it: the object stays alive (its kind and the pointer unchanged when the "
+                               "caller is a failure handler that keeps the object), so the next clean or free releases the block again"
+                               % (fn.name, ap))
+    return n
+
+
+# ------------------------------------------------------------------------------------------------ hash key length
+def hash_key_length(prog, rule):
+    """In every HASH_ADD_KEYPTR expansion the stored key length is the length in bytes of the stored key: `hh.keylen` is
+    `u_strlen(K) * sizeof(UChar)` for the very expression K stored into `hh.key`, directly or through a local assigned that
+    product.  (Look-ups compute the length the same way: a different length makes the entry unreachable or merges keys.)
+    Returns the number of insertions judged."""
+    n = 0
+    for fn in prog.all_functions():
+        groups = {}
+        for (b, i, r, a) in fn.eval_sites("asg"):
+            ms = a.get("ms") or []
+            if not any(m.startswith("HASH_ADD") for m in ms):
+                continue
+            lp = path(strip(a.get("lhs"))) or ""
+            if lp.endswith("hh.key"):
+                groups.setdefault(a.get("l"), {})["key"] = a
+            elif lp.endswith("hh.keylen"):
+                groups.setdefault(a.get("l"), {})["len"] = a
+        for line, g in sorted(groups.items(), key=lambda kv: kv[0] or 0):
+            if "key" not in g or "len" not in g:
+                continue
+            n += 1
+            kexpr = strip(g["key"].get("rhs"))
+            while isinstance(kexpr, dict) and kexpr.get("k") == "cast":
+                kexpr = strip(kexpr.get("e"))
+            kp = path(kexpr)
+            lexpr = strip(g["len"].get("rhs"))
+
+            def strlen_arg(e, depth=0):
+                """path P if e is u_strlen(P) * sizeof(..) (either order, through casts), else None / 'other'"""
+                e = strip(e)
+                if not isinstance(e, dict) or depth > 4:
+                    return None
+                if e.get("k") == "bin" and e.get("op") == "*":
+                    for side in (e.get("lhs"), e.get("rhs")):
+                        s_ = strip(side)
+                        if isinstance(s_, dict) and s_.get("k") == "call":
+                            if s_.get("callee") == "u_strlen" and s_.get("args"):
+                                return ("u_strlen", path(strip(s_["args"][0])))
+                            return (s_.get("callee"), path(strip(s_["args"][0])) if s_.get("args") else None)
+                return None
+            got = strlen_arg(lexpr)
+            if got is None and path(lexpr):
+                # a local holding the product
+                lv = path(lexpr)
+                defs = []
+                for (b2, i2, r2, x) in fn.eval_sites():
+                    if x.get("k") == "asg" and x.get("op") == "=" and path(strip(x.get("lhs"))) == lv:
+                        defs.append(x.get("rhs"))
+                    elif x.get("k") == "decl":
+                        for v in x.get("vars", []):
+                            if v["name"] == lv and v.get("init") is not None:
+                                defs.append(v["init"])
+                gots = {strlen_arg(d) for d in defs}
+                if len(gots) == 1:
+                    got = gots.pop()
+                elif gots and None not in gots and all(g_[0] == "u_strlen" for g_ in gots):
+                    # the variable is re-used: accept when one of its definitions measures the stored key
+                    got = next((g_ for g_ in gots if g_[1] == kp), sorted(gots, key=str)[0])
+                else:
+                    got = None
+            if got is not None and got[0] == "u_strlen" and got[1] != kp and kp:
+                # `e->key = k; HASH_ADD_KEYPTR(.., e->key, U_BYTES(k), e)`: k is what the key field holds
+                srcs = {path(strip(a2.get("rhs"))) for (b2, i2, r2, a2) in fn.eval_sites("asg")
+                        if path(strip(a2.get("lhs"))) == kp and a2.get("op") == "="}
+                if got[1] in srcs:
+                    got = ("u_strlen", kp)
+            key = "%s:HASH_ADD@L%s" % (fn.name, line)
+            if got is None:
+                rule.unproved(key, "key length `%s` is not recognisably u_strlen(key) * sizeof(UChar)" % show(lexpr)[:60])
+            elif got[0] != "u_strlen":
+                rule.violation(fn.file, fn.name, line, "hash-key-length-unit:%s" % fn.name,
+                               "the key length of the insertion at L%s is computed with %s(), not u_strlen(): it is not the number of "
+                               "UTF-16 code units of the key, so keys that differ only beyond that length collide (or the hash reads "
+                               "past the key)" % (line, got[0]))
+            elif got[1] != kp:
+                rule.violation(fn.file, fn.name, line, "hash-key-length-of-other-string:%s" % fn.name,
+                               "the insertion at L%s stores the key `%s` with the length of `%s`: look-ups hash `%s` over its own "
+                               "length, so the entry is found only when the two strings happen to be equally long"
+                               % (line, kp, got[1], kp))
+            else:
+                rule.ok(key, "length of the stored key itself")
+    return n
+
+
+# ------------------------------------------------------------------------------------------------ save / patch / restore
+PATCH_EXEMPT = {
+    "parse_cif": "the top-level production: whatever it returns ends the parse, and the scan buffer is released right after",
+}
+
+
+def patched_byte_restored(prog, rule, units=("parser.c",)):
+    """`saved = *p; *p = 0; ... *p = saved;` - a terminator written into the scan buffer for the duration of a call must be
+    restored on every path from the write to an exit of the function on which parsing goes on (return value 0 or a
+    traversal directive; an exit with a positive code abandons the parse and the buffer with it).  Returns the number of
+    patches judged."""
+    from .interp import Interp
+    n = 0
+    for fn in prog.all_functions():
+        if units and fn.unit not in units:
+            continue
+        saves = {}
+        for (b, i, r, x) in fn.eval_sites():
+            if x.get("k") == "decl":
+                for v in x.get("vars", []):
+                    ini = strip(v.get("init")) if v.get("init") is not None else None
+                    if isinstance(ini, dict) and ini.get("k") == "un" and ini.get("op") == "*":
+                        saves[v["name"]] = show(strip(ini.get("e")))
+            elif x.get("k") == "asg" and x.get("op") == "=":
+                rr = strip(x.get("rhs"))
+                lp = path(strip(x.get("lhs")))
+                if lp and isinstance(rr, dict) and rr.get("k") == "un" and rr.get("op") == "*" and lp.replace("_", "a").isalnum():
+                    saves[lp] = show(strip(rr.get("e")))
+        if not saves:
+            continue
+        patch_ids, restore_ids = {}, set()
+        for sv, ptr in saves.items():
+            for (b, i, r, x) in fn.eval_sites("asg"):
+                l = strip(x.get("lhs"))
+                if not (isinstance(l, dict) and l.get("k") == "un" and l.get("op") == "*" and show(strip(l.get("e"))) == ptr):
+                    continue
+                if const(x.get("rhs")) == 0:
+                    patch_ids[x["id"]] = (x, sv, ptr)
+                elif path(strip(x.get("rhs"))) == sv:
+                    restore_ids.add(x["id"])
+        if not patch_ids:
+            continue
+
+        class P(Interp):
+            def initial_ts(self):
+                return None
+
+            def assign(self, st, node, lhs, p, av, rhs):
+                if node.get("id") in patch_ids:
+                    return st.with_ts(node["id"])
+                if node.get("id") in restore_ids:
+                    return st.with_ts(None)
+                return st
+        it = P(prog, fn)
+        it.cap = 6000
+        it.max_steps = 600000
+        it.run()
+        for pid_, (px, sv, ptr) in sorted(patch_ids.items()):
+            n += 1
+            key = "%s:*(%s)=0@L%s" % (fn.name, ptr, px.get("l"))
+            if it.overflow:
+                rule.unproved(key, "not analysed to a fixpoint")
+                continue
+            if fn.name in PATCH_EXEMPT:
+                rule.ok(key + ":exempt", PATCH_EXEMPT[fn.name])
+                continue
+            # a non-zero verdict of the error callback (of either sign) abandons the parse: only a return of exactly 0 goes on
+            bad = [(st, av, node) for (st, av, node) in it.exits
+                   if st.ts == pid_ and (av is None or av.contains(0))]
+            if bad:
+                st, av, node = bad[0]
+                rule.violation(fn.file, fn.name, px.get("l"), "patched-byte-not-restored:%s" % fn.name,
+                               "a NUL is written over `*(%s)` at L%s (its old value kept in `%s`), and the function can then return %s "
+                               "- so parsing goes on - without `*(%s) = %s`: the input buffer keeps the NUL in place of the "
+                               "character the document has there" % (ptr, px.get("l"), sv, "CIF_OK" if (av is not None and av.is_const() and av.value() == 0) else "a value that may be CIF_OK", ptr, sv),
+                               path=["L%s" % x for x in st.trail_lines()][-20:])
+            else:
+                rule.ok(key, "restored from `%s` before every exit on which parsing continues" % sv)
     return n
